@@ -1,1 +1,14 @@
 import SwcVerif.Props.C16
+#print axioms C16.cumdist_spec
+#print axioms C16.linspace_spec
+#print axioms C16.iso_step_le
+#print axioms C16.isoPositions_adjust
+#print axioms C16.isoPositions_zero
+#print axioms C16.isoPositions_noadjust
+#print axioms C16.interp_endpoints
+#print axioms C16.interp_on_segment
+#print axioms C16.convex_between
+#print axioms C16.isoResample_columns
+#print axioms C16.linearResample_columns
+#print axioms C16.smooth_endpoints_count
+#print axioms C16.assemble_keeps_interior
